@@ -24,7 +24,7 @@ type evalModel struct {
 	newSub, newSubBinds                                                      *ssa.Function
 
 	astParam, envParam, ctxParam *ssa.Parameter
-	envCell, ctxCell             *ssa.Alloc // nil when the parameter is not spilled
+	envCell, ctxCell, astCell    *ssa.Alloc // nil when the parameter is not spilled
 	envPhi                       *ssa.Phi   // the loop-carried scope when it is not spilled to a cell
 	header                       *ssa.BasicBlock
 	astPhi                       *ssa.Phi
@@ -98,6 +98,25 @@ func newEvalModel(w *World, e *Engine) *evalModel {
 			for _, op := range phi.Edges {
 				if op == ssa.Value(m.astParam) {
 					m.header, m.astPhi = l.header, phi
+				}
+			}
+		}
+	}
+	if m.header == nil {
+		// the form is kept in a cell (a closure of EVAL reads it): the evaluation loop is the loop with the
+		// most assignments to that cell
+		if cell := spillCell(m.astParam); cell != nil && !cellVolatile(cell) {
+			best := 0
+			for _, l := range naturalLoops(m.EVAL) {
+				blocks := loopBlocks(l)
+				n := 0
+				for _, st := range m.e.storesTo(cell) {
+					if st.Parent() == m.EVAL && blocks[st.Block()] {
+						n++
+					}
+				}
+				if n > best {
+					best, m.header, m.astCell = n, l.header, cell
 				}
 			}
 		}
@@ -1074,4 +1093,71 @@ func (m *evalModel) valuesIn(v ssa.Value, region string, depth int) []ssa.Value 
 		}
 	}
 	return out
+}
+
+// nextForms: the forms the evaluation loop continues with: the values that flow into the loop-carried form
+// over the back edges (or are assigned to the form's cell inside the loop), each with the block it comes from.
+func (m *evalModel) nextForms() (vals []ssa.Value, from []*ssa.BasicBlock) {
+	if m.astPhi != nil {
+		for i, op := range m.astPhi.Edges {
+			pred := m.header.Preds[i]
+			if m.header.Dominates(pred) {
+				vals, from = append(vals, op), append(from, pred)
+			}
+		}
+		return
+	}
+	if m.astCell != nil {
+		for _, st := range m.e.storesTo(m.astCell) {
+			if st.Parent() == m.EVAL && m.header.Dominates(st.Block()) {
+				vals, from = append(vals, st.Val), append(from, st.Block())
+			}
+		}
+	}
+	return
+}
+
+// isLoopForm: v is the loop-carried form itself (the header's phi, or a load of the form's cell).
+func (m *evalModel) isLoopForm(v ssa.Value) bool {
+	if m.astPhi != nil && v == ssa.Value(m.astPhi) {
+		return true
+	}
+	if ld, ok := v.(*ssa.UnOp); ok && ld.Op == token.MUL && m.astCell != nil && ld.X == ssa.Value(m.astCell) {
+		return true
+	}
+	return false
+}
+
+// isIncomingForm: v is the form EVAL was called with (the parameter, or a load of its cell that only the
+// entry store reaches).
+func (m *evalModel) isIncomingForm(v ssa.Value) bool {
+	if v == ssa.Value(m.astParam) {
+		return true
+	}
+	if ld, ok := v.(*ssa.UnOp); ok && ld.Op == token.MUL && m.astCell != nil && ld.X == ssa.Value(m.astCell) {
+		val, _ := m.e.cellValue(ld, m.astCell)
+		return val == ssa.Value(m.astParam)
+	}
+	return false
+}
+
+// formLeaving: the value the form's cell holds at the end of block b, when one store decides it.
+func (m *evalModel) formLeaving(b *ssa.BasicBlock) ssa.Value {
+	if m.astCell == nil {
+		return nil
+	}
+	var last ssa.Value
+	for _, in := range b.Instrs {
+		if st, ok := in.(*ssa.Store); ok && st.Addr == ssa.Value(m.astCell) {
+			last = st.Val
+		}
+	}
+	if last != nil {
+		return last
+	}
+	// nothing assigned in b itself: what its single predecessor chain left
+	if len(b.Preds) == 1 && b.Preds[0] != b {
+		return m.formLeaving(b.Preds[0])
+	}
+	return nil
 }
